@@ -31,6 +31,8 @@ type Base struct {
 	// Reuse: the receiver object held another point before and was already serialised and compared when the
 	// value is decoded into it (object history must not matter).
 	Reuse bool `json:"reuse,omitempty"`
+	// ZeroRecv: the value is set into a zero-value struct (`new(secp256k1.Element)`) rather than into NewElement().
+	ZeroRecv bool `json:"zero_recv,omitempty"`
 }
 
 // Step is one value-preserving representation change.
@@ -132,6 +134,16 @@ func usedElement() *secp256k1.Element {
 
 func fromModelInto(e *secp256k1.Element, p ref.Point, via string) (*secp256k1.Element, error) {
 	if p.Inf {
+		// the identity is set into the receiver through one of its setters
+		switch via {
+		case "comp", "uncomp":
+			if err := e.Decode([]byte{0}); err != nil {
+				return nil, &BuilderError{Msg: "Decode(00) rejected: " + err.Error()}
+			}
+			return e, nil
+		case "mulnil":
+			return e.Multiply(nil), nil
+		}
 		return e.Identity(), nil
 	}
 	var err error
@@ -369,6 +381,16 @@ func apply(e *secp256k1.Element, st Step, cur ref.Point) (*secp256k1.Element, er
 			return nil, &BuilderError{Msg: "Decode of own encoding rejected: " + err.Error()}
 		}
 		return e, nil
+	case "observe":
+		// read-only observers: they must not change what the element is (nor any hidden state that later operations use)
+		_ = e.Encode()
+		_ = e.Hex()
+		_, _ = e.MarshalBinary()
+		_ = e.XCoordinate()
+		_ = e.EncodeUncompressed()
+		_ = e.IsIdentity()
+		_ = e.Equal(secp256k1.Base())
+		return e, nil
 	case "structcopy":
 		// a Go-level copy by struct assignment, then the original is changed: the copy must be independent
 		c := *e
@@ -424,6 +446,9 @@ func Build(s Spec) (*Built, error) {
 	if s.Base.Reuse {
 		recv = usedElement()
 	}
+	if s.Base.ZeroRecv {
+		recv = new(secp256k1.Element) // a zero-value struct as receiver of the setter (it holds no group element yet)
+	}
 	e, err := fromModelInto(recv, want, s.Base.Via)
 	if err != nil {
 		return nil, err
@@ -439,9 +464,9 @@ func Build(s Spec) (*Built, error) {
 // ---------------------------------------------------------------------------------------------------
 
 var (
-	stepsAny  = []string{"addO", "Oadd", "subO", "addsub", "subadd", "dblsub", "negneg", "decenc", "decunc", "selfdec", "selfdecunc", "copy", "set", "structcopy", "rescale", "rescale", "target", "target"}
+	stepsAny  = []string{"addO", "Oadd", "subO", "addsub", "subadd", "dblsub", "negneg", "decenc", "decunc", "selfdec", "selfdecunc", "copy", "set", "structcopy", "observe", "observe", "rescale", "rescale", "target", "target"}
 	stepsSlow = []string{"dblhalf", "mulinv"}
-	stepsID   = []string{"id:p-p", "id:p+negp", "id:mul0", "id:kn-k", "id:o-o", "id:decode00", "id:mulnil", "id:wb", "id:wb"}
+	stepsID   = []string{"observe", "id:p-p", "id:p+negp", "id:mul0", "id:kn-k", "id:o-o", "id:decode00", "id:mulnil", "id:wb", "id:wb"}
 )
 
 // StepGen draws one step; identity selects the identity recipes.
@@ -490,6 +515,8 @@ func BaseGen() *rapid.Generator[Base] {
 		switch rapid.IntRange(0, 9).Draw(t, "baseKind") {
 		case 0:
 			b.Kind = "id"
+			b.ZeroRecv = gen.Chance(t, "zeroRecvId", 1, 3)
+			b.Via = rapid.SampledFrom([]string{"coords", "comp", "mulnil"}).Draw(t, "idVia")
 			return b
 		case 1:
 			b.Kind = "g"
@@ -507,6 +534,7 @@ func BaseGen() *rapid.Generator[Base] {
 		b.Neg = rapid.IntRange(0, 7).Draw(t, "neg") == 0
 		b.Via = rapid.SampledFrom([]string{"coords", "comp", "uncomp"}).Draw(t, "via")
 		b.Reuse = gen.Chance(t, "reuse", 1, 4)
+		b.ZeroRecv = !b.Reuse && gen.Chance(t, "zeroRecv", 1, 5)
 		return b
 	})
 }
